@@ -529,6 +529,10 @@ EvGuards(e) ==
             (IF \E c \in DOMAIN pend : pend[c].e.op \in {"ListTopics", "ListSubs", "ListTopicSubs"}
              THEN { G("C13", FALSE) } ELSE {})
       [] e.k = "abort" -> { G("C17", FALSE) }      \* the server process died
+      \* nothing in the process moved any more with calls outstanding (not even the harness' own
+      \* time-outs): some call is never answered
+      [] e.k = "stall" -> { G("C07", FALSE) } \cup
+            (IF \E c \in DOMAIN pend : pend[c].e.op = "DeleteSub" THEN { G("C10", FALSE) } ELSE {})
       [] e.k = "end" ->
             { G("C07", pend = Empty),
               \* everything a live subscription was ever posted has been delivered and acknowledged
@@ -562,6 +566,7 @@ LightGuards(e) ==
             ELSE {}
       [] e.k = "hang" -> { G("C07", FALSE) }
       [] e.k \in {"panic", "abort"} -> { G("C17", FALSE) }
+      [] e.k = "stall" -> { G("C07", FALSE) }
       [] e.k = "end" -> { G("C07", pend = Empty) }
       [] e.k = "quiet" ->
             \* C06 on sizes: at rest no waiting consumer's subscription reports a non-empty backlog
